@@ -1445,6 +1445,25 @@ FUNCS = [
                    ("self.w.flush()?;", "sent := sent ++ [Copia.HubSync.Sent.flush]"),
                    ('match self.recv()? { Response::PutResult { committed, .. } => Ok(committed), other => Err(std::io::Error::new( std::io::ErrorKind::InvalidData, format!("expected PutResult, got {other:?}"), )), }',
                     "return (match recv with\n  | some (Copia.Hub.Reply.putResult committed _) => (some committed, sent)\n  | _ => (none, sent))")]),
+    # ---- incremental.rs: which of the three runs a pair of endpoints gets, and the staging name of a delivery
+    dict(group="oneway", file="src/bin/copia/incremental.rs", name="run_sync_recursive", sig=None,
+         lean="def dispatchGen (source dest : Copia.Target.Loc) : Option (Nat × List Char × List Char × List Char) := Id.run do\n"
+              "  -- result: (0 = push | 1 = pull | 2 = local, host, remote path / source path, local path / destination path); none = refused",
+         calls={}, paths={},
+         verbatim=[("match (source, dest) { (FileLocation::Local(local), FileLocation::Remote { host, path }) => { run_remote(Dir::Push, &host, &path, &local, &opts).await } "
+                    "(FileLocation::Remote { host, path }, FileLocation::Local(local)) => { run_remote(Dir::Pull, &host, &path, &local, &opts).await } "
+                    "(FileLocation::Local(from), FileLocation::Local(to)) => run_local(&from, &to, &opts).await, "
+                    '_ => Err("Recursive sync supports local->remote, local->local, and remote->local (not remote->remote)".into()), }',
+                    "return (match (source, dest) with\n"
+                    "  | (Copia.Target.Loc.localPath local_, Copia.Target.Loc.remote host path) => some (0, host, path, local_)\n"
+                    "  | (Copia.Target.Loc.remote host path, Copia.Target.Loc.localPath local_) => some (1, host, path, local_)\n"
+                    "  | (Copia.Target.Loc.localPath from_, Copia.Target.Loc.localPath to) => some (2, [], from_, to)\n"
+                    "  | _ => none)")]),
+    dict(group="oneway", file="src/bin/copia/incremental.rs", name="tmp_path", sig=None,
+         lean="def tmpPathGen (dst : List Char) : List Char := Id.run do", calls={}, paths={},
+         verbatim=[("let mut s = dst.as_os_str().to_owned();", "let mut s := dst"),
+                   ('s.push(".copia-tmp");', 's := s ++ ".copia-tmp".toList'),
+                   ("PathBuf::from(s)", "return s")]),
     # ---- incremental.rs: the delete list a push hands to the remote `xargs -0 rm`
     dict(group="oneway", file="src/bin/copia/incremental.rs", name="apply_remote_deletes (the push list)", fn="apply_remote_deletes", sig=None,
          slice=("let mut list = String::new();", 'let _ = write!(list, "{}/{}\\0", remote_root, rel.display());'), slice_close=1,
@@ -1882,7 +1901,7 @@ GROUP_HEAD = {
     "hubput": ("import Copia.Model.HubTrace\nimport Copia.Model.HubGetSolo\nimport Copia.Model.Hub\nimport Copia.Model.HubLock\nimport Copia.Model.HexSupport", "open Copia.HubConc (Call Chunk Hash)\nopen Copia.HubGet (GCall)\nopen Copia.HubLock (LockCall)"),
     "deliver": ("import Copia.Model.Deliver", "open Copia.Deliver (DStep)"),
     "target": ("import Copia.Model.Target", ""),
-    "oneway": ("import Copia.Model.OneWay\nimport Copia.Gen.LoopsPlan", ""),
+    "oneway": ("import Copia.Model.OneWay\nimport Copia.Gen.LoopsPlan\nimport Copia.Model.Target", ""),
     "crash": ("import Copia.Model.Crash", "open Copia.Crash (Side FsStep)"),
     "delta": ("import Copia.Model.DeltaSupport",
               "open Copia.Delta Copia.DeltaSupport\nopen Copia.Checksum (Fast)"),
